@@ -14,6 +14,8 @@ under any that does not:
  (G) add_forbidden_view / add_notfound_view / add_exception_view / add_static_view under a policy + default permission:
      derived callable unguarded?, exception_only?, `permission=` rejected?
  (H) the default of every `secure` parameter (inspect.signature)
+ (I) the `viewdefaults` merge of a class's (inherited) `__view_defaults__` with the explicit arguments, observed
+     through add_view on a base/own/explicit/default-permission cube (96 runs)
 STRUCTURAL facts — python `ast` (cannot be observed by running: they are about every place in the tree):
  (S) every call of _call_view / render_view_to_response / render_view_to_iterable / render_view / invoke_exception_view,
      every occurrence of `__call_permissive__`, every `secure=False` keyword, with file, enclosing function, the value
@@ -285,6 +287,16 @@ def generate(root):
     L += ['/-- (directive, derived callable under policy + default permission, rejects a `permission` argument, exception_only) -/',
           'def specialDirectives : List (String × String × Bool × Bool) := [' +
           ', '.join('(%s, %s, %s, %s)' % (_lstr(a), _lstr(b), _lbool(c), _lbool(d)) for a, b, c, d in (pr.get('directives') or [])) + ']', '']
+    # (I) view defaults
+    vd = pr.get('view_defaults') or {}
+    L += ['/-- `viewdefaults` merge observed through add_view: (base, own: 0 undecorated / 1 @view_defaults without permission / 2 a',
+          'name / 3 the marker; explicit argument 0 absent / 1 a name / 2 the marker; default permission set?; guard of the derived',
+          "callable: 0 none, 1 explicit name, 2 base's name, 3 own name, 4 default permission) -/",
+          'def viewDefaultsProbe : List (Nat × Nat × Nat × Nat × Nat) := [' +
+          ', '.join('(%d, %d, %d, %d, %d)' % (r['base'], r['own'], r['explicit'], r['dflt'], r['guard']) for r in (vd.get('rows') or [])) + ']',
+          '/-- a class-level `permission` makes these directives refuse the class -/',
+          'def classPermissionRejected : List (String × Bool) := [' +
+          ', '.join('(%s, %s)' % (_lstr(a), _lbool(b)) for a, b in (vd.get('rejected') or [])) + ']', '']
     # (H)
     L += ['def secureDefaults : List (String × String) := [' + ', '.join('(%s, %s)' % (_lstr(a), _lstr(b)) for a, b in (pr.get('secure_defaults') or [])) + ']', '']
     # (S)
